@@ -1,9 +1,12 @@
 """Engine `plot`: Reingold-Tilford coordinates (C19).
 
 case = {"cls": "Node"|"BaseNode", "tree": nested list of children lists, "par": [sibling_separation,
-subtree_separation, level_separation, x_offset, y_offset] (Python floats), "stratum": label}.
-A fresh tree is built for every case (a second call on the same tree would reuse stale `shift`
-attributes, which is outside the property).  The floats the implementation wrote are handed to Coq as
+subtree_separation, level_separation, x_offset, y_offset] (Python floats), "stratum": label,
+optional "steps": [{"edit": None | ["rev", path] | ["add", path, i], "par": [...]}, ...]}.
+A fresh tree is built for every case and laid out with "par"; every step then (optionally changes
+the structure and) calls reingold_tilford again on the SAME tree object (the stale `shift`
+attributes of the earlier call are read back, exactly as modelled by Algo/Plot.v `run_steps`);
+the observation is the coordinates after the last call.  The floats the implementation wrote are handed to Coq as
 exact rationals (float.as_integer_ratio()) and compared with the exact-rational model up to 1e-9.
 """
 import itertools
@@ -63,7 +66,25 @@ def run_impl(prop, case):
     ss, sts, ls, xo, yo = case["par"]
     reingold_tilford(root, sibling_separation=ss, subtree_separation=sts, level_separation=ls,
                      x_offset=xo, y_offset=yo)
-    return {"pre": pre, "out": _coords(root)}
+    for step in case.get("steps", []):
+        ed = step.get("edit")
+        if ed:
+            nd = root
+            for j in ed[1]:
+                nd = nd.children[j]
+            ch = list(nd.children)
+            if ed[0] == "rev":
+                ch.reverse()
+            elif ed[0] == "add":
+                counter[0] += 1
+                ch.insert(ed[2], Node("n%d" % counter[0]) if case["cls"] == "Node" else BaseNode())
+            else:
+                raise ValueError(ed[0])
+            nd.children = ch
+        ss, sts, ls, xo, yo = step["par"]
+        reingold_tilford(root, sibling_separation=ss, subtree_separation=sts, level_separation=ls,
+                         x_offset=xo, y_offset=yo)
+    return {"pre": pre, "last": _shape(root), "out": _coords(root)}
 
 
 # ---------------------------------------------------------------------------------------------
@@ -86,9 +107,36 @@ def _cout(o):
     return f"c {_cq(x)} {_cq(y)} " + clist(f"({_cout(k)})" for k in ks)
 
 
+def _cpar(par):
+    return "PR " + " ".join(f"(q {_cq(v)})" for v in par)
+
+
+def _cpath(path):
+    return clist(f"{int(j)}%nat" for j in path)
+
+
+def _cedit(ed):
+    if not ed:
+        return "ENone"
+    if ed[0] == "rev":
+        return f"ERev {_cpath(ed[1])}"
+    if ed[0] == "add":
+        return f"EAdd {_cpath(ed[1])} {int(ed[2])}%nat"
+    raise ValueError(ed[0])
+
+
 def emit(prop, case, obs):
-    par = " ".join(f"(q {_cq(v)})" for v in case["par"])
-    return f"PC (PR {par}) ({_ctree(obs['pre'])}) ({_cout(obs['out'])})"
+    steps = clist(f"({_cedit(st.get('edit'))}, {_cpar(st['par'])})" for st in case.get("steps", []))
+    return f"PC ({_cpar(case['par'])}) ({_ctree(obs['pre'])}) {steps} ({_cout(obs['out'])})"
+
+
+def last_par(case):
+    steps = case.get("steps") or []
+    return steps[-1]["par"] if steps else case["par"]
+
+
+def has_edit(case):
+    return any(st.get("edit") for st in case.get("steps") or [])
 
 
 # ---------------------------------------------------------------------------------------------
@@ -123,14 +171,14 @@ def _same_shape(t, o):
 
 def clauses(case, obs):
     """{clause: bool} for the five clauses + shape, on the implementation's output."""
-    ss, sts, ls, xo, yo = [Fraction(v) for v in case["par"]]
+    ss, sts, ls, xo, yo = [Fraction(v) for v in last_par(case)]
 
     def conv(o):
         return [Fraction(o[0]), Fraction(o[1]), [conv(k) for k in o[2]]]
 
     o = conv(obs["out"])
     lv = _levels(o)
-    res = {"shape": _same_shape(obs["pre"], o)}
+    res = {"shape": _same_shape(obs.get("last", obs["pre"]), o)}
     ok = True
     for d, row in enumerate(lv):
         ok &= all(abs(nd[1] - row[0][1]) <= TOL for nd in row)
@@ -147,17 +195,22 @@ def clauses(case, obs):
 
 
 def matches_finding(prop, entry, case, obs, flags):
-    """K1-C19: the case fails *only* the cousin-separation clause, and the implementation's
-    coordinates are the modelled ones (Coq reported no disagreement: flags == F_PROPFAIL)."""
-    if entry.get("id") != "K1-C19" or flags != 2:
-        return False
-    if not isinstance(obs, dict) or "out" not in obs:
+    """K1-C19: no structural change between the calls; the case fails *only* the cousin-separation clause,
+    and the implementation's coordinates are the modelled ones (Coq: no disagreement, flags == F_PROPFAIL).
+    K4-C19 (proposed): the tree was changed (child inserted / children reordered) between two calls; only
+    the sibling-separation and/or cousin-separation clauses fail; coordinates are the modelled ones."""
+    if flags != 2 or not isinstance(obs, dict) or "out" not in obs:
         return False
     try:
         cl = clauses(case, obs)
     except Exception:
         return False
-    return (not cl["cousins"]) and all(v for k, v in cl.items() if k != "cousins")
+    bad = {k for k, v in cl.items() if not v}
+    if entry.get("id") == "K1-C19":
+        return (not has_edit(case)) and bad == {"cousins"}
+    if entry.get("id") == "K4-C19":
+        return has_edit(case) and bool(bad) and bad <= {"siblings", "cousins"}
+    return False
 
 
 # ---------------------------------------------------------------------------------------------
@@ -196,7 +249,44 @@ def corpus(prop):
         ("sandwich-nested", {"cls": "Node", "tree": [[], [[[[], [], []]], [], [[]], [[[], [], [], []]]]],
                              "par": [1.0, 2.0, 1.5, 0.0, 0.0], "stratum": "corpus"}),
     ]
+    v = [1.0, 2.0, 0.5, 0.5, 0.0]
+    out += [
+        # the same tree object laid out again with other parameters (stale `shift` is read back)
+        ("rerun", {"cls": "Node", "tree": DOC_TREE, "par": u, "steps": [{"edit": None, "par": v}], "stratum": "corpus"}),
+        ("rerun-x3", {"cls": "Node", "tree": [[[], [], []], [[], []], [], [[], [], [], []]], "par": v,
+                      "steps": [{"edit": None, "par": u}, {"edit": None, "par": [2.0, 0.5, 1.5, 0.0, 1.0]}],
+                      "stratum": "corpus"}),
+        ("rerun-nonfirst-mod", {"cls": "Node", "tree": [[], [[], []]], "par": u,
+                                "steps": [{"edit": None, "par": [2.0, 2.0, 1.0, 0.0, 0.0]}], "stratum": "corpus"}),
+        # structural changes between two calls on which the layout stays tidy
+        ("rerun-reversed", {"cls": "Node", "tree": [[[], [], []], [[], [], []], []], "par": u,
+                            "steps": [{"edit": ["rev", []], "par": u}], "stratum": "corpus"}),
+        ("rerun-leaf-in-front", {"cls": "Node", "tree": [[[], []], [[], []]], "par": u,
+                                 "steps": [{"edit": ["add", [], 0], "par": u}], "stratum": "corpus"}),
+        ("rerun-leaf-below", {"cls": "Node", "tree": [[[], []], [[], []]], "par": u,
+                              "steps": [{"edit": ["add", [0], 1], "par": u}], "stratum": "corpus"}),
+    ]
+    if _k4_registered():
+        # proposed finding K4-C19: a leaf appended next to a sibling that carries a stale shift
+        out.append(("K4-witness", {"cls": "Node", "tree": K4_TREE, "par": u,
+                                   "steps": [{"edit": ["add", [], 2], "par": u}], "stratum": "corpus"}))
     return out
+
+
+K4_TREE = [[[], []], [[]]]          # r(a(a1, a2), b(b1)); then r gets a new last child c and is laid out again
+
+
+def _k4_registered():
+    """the K4 witness violates the sibling clause on the unchanged library; it joins the corpus only once
+    known_findings.json carries an entry with id K4-C19 (until then it is reported, not checked)"""
+    import json
+    import os
+    path = os.path.join(os.path.dirname(os.path.dirname(os.path.dirname(os.path.abspath(__file__)))),
+                        "known_findings.json")
+    try:
+        return any(e.get("id") == "K4-C19" for e in json.load(open(path)).get("entries", []))
+    except Exception:
+        return False
 
 
 def _from_parents(kids, i=0):
@@ -417,8 +507,16 @@ def generate(prop, rng, tier):
         else:
             t = gen_tree(rng, shape, nmax)
         pk = rng.choice(pkinds)
-        yield f"{shape}/{pk}", {"cls": "Node" if rng.random() < 0.8 else "BaseNode", "tree": t,
-                                "par": gen_params(rng, pk), "stratum": f"{shape}/{pk}"}
+        case = {"cls": "Node" if rng.random() < 0.8 else "BaseNode", "tree": t,
+                "par": gen_params(rng, pk), "stratum": f"{shape}/{pk}"}
+        label = f"{shape}/{pk}"
+        if rng.random() < 0.22:
+            # the same tree object is laid out again (once or twice) with other parameters; no structural
+            # change in generated cases (see K4-C19)
+            case["steps"] = [{"edit": None, "par": gen_params(rng, rng.choice(pkinds))}
+                             for _ in range(rng.choice([1, 1, 2]))]
+            case["stratum"] = label = f"rerun:{shape}/{pk}"
+        yield label, case
 
 
 # ---------------------------------------------------------------------------------------------
@@ -436,6 +534,20 @@ def _drop_variants(t):
 
 
 def shrink_candidates(prop, case):
+    steps = case.get("steps") or []
+    for k in range(len(steps)):
+        c = dict(case)
+        c["steps"] = steps[:k] + steps[k + 1:]
+        if not c["steps"]:
+            del c["steps"]
+        yield c
+    for k, st in enumerate(steps):
+        if st["par"] != [1.0, 1.0, 1.0, 0.0, 0.0]:
+            c = dict(case)
+            c["steps"] = steps[:k] + [{"edit": st.get("edit"), "par": [1.0, 1.0, 1.0, 0.0, 0.0]}] + steps[k + 1:]
+            yield c
+    if has_edit(case):
+        return          # paths of an edit refer to the tree as it is
     for v in _drop_variants(case["tree"]):
         c = dict(case)
         c["tree"] = v
@@ -452,7 +564,10 @@ def shrink_candidates(prop, case):
 
 
 def size(case):
-    return 10 * tsize(case["tree"]) + sum(1 for v, d in zip(case["par"], [1.0, 1.0, 1.0, 0.0, 0.0]) if v != d)
+    n = 10 * tsize(case["tree"]) + sum(1 for v, d in zip(case["par"], [1.0, 1.0, 1.0, 0.0, 0.0]) if v != d)
+    for st in case.get("steps") or []:
+        n += 5 + sum(1 for v, d in zip(st["par"], [1.0, 1.0, 1.0, 0.0, 0.0]) if v != d)
+    return n
 
 
 def _fanout(t):
@@ -467,11 +582,12 @@ def rule(prop):
     return ("fresh Node/BaseNode trees (<= 24 nodes; strata wide / deep / mixed / binary / comb = 3-6 siblings with "
             "multi-level subtrees / zigzag = facing contours that continue below a sibling of the contour node, depth <= 7 / negwide = the smallest preliminary x is at a leaf that is not the left-most one / sandwich = 3-5 siblings, deep wide subtrees separated by shallow ones, also nested / path / star, plus every ordered tree with <= 6 nodes (quick) or <= 7 nodes x 6 "
             "parameter sets (thorough)) x positive separations (unit / dyadic / non-dyadic / mixed) and non-negative "
-            "offsets; non-trivial = >= 4 nodes, some fan-out >= 2 and depth >= 3; distinct by canonical JSON hash")
+            "offsets; about 22 % of the generated cases lay the same tree object out again once or twice with other parameters "
+            "(no structural change in between); non-trivial = >= 4 nodes, some fan-out >= 2 and depth >= 3; distinct by canonical JSON hash")
 
 
 def sample(prop, case, obs):
-    return {"tree": case["tree"], "par": case["par"], "coordinates": obs.get("out") if isinstance(obs, dict) else None}
+    return {"tree": case["tree"], "par": case["par"], "steps": case.get("steps", []), "coordinates": obs.get("out") if isinstance(obs, dict) else None}
 
 
 def explain(prop, case, obs, flags):
@@ -507,5 +623,6 @@ def trusted_base(prop):
 
 
 def assumptions(prop):
-    return ["inputs are fresh trees (no stale x/mod/shift attributes from an earlier reingold_tilford call)",
+    return ["inputs are fresh trees or trees laid out before by reingold_tilford and structurally unchanged since "
+            "(a child inserted or children reordered between two layouts: proposed finding K4-C19, corpus only)",
             "separations > 0, offsets >= 0 in generated cases; reingold_tilford is called on a root node"]
